@@ -16,6 +16,31 @@ fn main() {
     let mon_path = get("--mon", "/verif/harness/mon");
     let (crates, per) = if tier == "thorough" { (12usize, 34usize) } else { (4usize, 14usize) };
 
+    if let Some(i) = args.iter().position(|a| a == "--c14") {
+        // C14: ambiguous sets + twins, nothing else
+        let dir = std::path::PathBuf::from(&args[i + 1]);
+        let want = if tier == "thorough" { 3000usize } else { 160usize };
+        let mut pairs = genr::c14_fixed();
+        let mut rng = Rng::new(seed ^ 0xC14);
+        let mut corpus = Rng::new(0xC14_C14);
+        let mut tries = 0;
+        while pairs.len() < want && tries < want * 40 {
+            tries += 1;
+            // half committed-seed corpus, half VERIF_SEED batch
+            let r = if pairs.len() % 2 == 0 { &mut corpus } else { &mut rng };
+            if let Some(p) = genr::c14_random(r) {
+                pairs.push(p);
+            }
+        }
+        for p in &pairs {
+            assert!(genr::is_ambiguous(&p.ambiguous).is_some(), "not ambiguous: {:?}", p.ambiguous);
+            assert!(genr::is_ambiguous(&p.twin).is_none(), "twin collides: {:?}", p.twin);
+        }
+        genr::emit_c14(&dir, &repo, &pairs).expect("emit c14");
+        println!("generated {} ambiguous/twin pairs", pairs.len());
+        return;
+    }
+
     let mut fixed: Vec<IfaceSpec> = vec![genr::mini(), genr::pzoo()];
     for q in [1usize, 2, 3, 4, 10] {
         fixed.push(genr::qdev(q));
